@@ -12,7 +12,7 @@ conc_note = ("Interleavings at visible operations (locks, atomics, cond/wait-gro
 
 CHECKS = {
  'C01': dict(tech='bounded exhaustive enumeration of operation sequences on the real stack against a map reference model (explicit-state, implementation-level)',
-   text='All autocommit histories to depth 4 (quick) / 6 (thorough) over Set/SetReader/Create/Delete on 3 keys plus the empty key, every read (Get, GetReader, GetKeys, never-written key) compared with a map model after every step; all ten boundary content lengths, Create splits, read-size patterns of the source reader and a paced Create on the last write of all histories of depth <= 3; the length/split alphabet also through the gRPC client (depth 1 / 3); 41 unusual valid-UTF-8 keys (separators, control characters, NUL, record prefixes, long keys) in histories with reopenings; a created file kept open across other operations and collection passes (the write takes effect at Close); the same histories to depth 3 / 4 replayed on the real Badger engine.', note=seq_note, ref='C01'),
+   text='All autocommit histories to depth 4 (quick) / 6 (thorough) over Set/SetReader/Create/Delete on 3 keys plus the empty key, every read (Get, GetReader, GetKeys, never-written key) compared with a map model after every step; all ten boundary content lengths, Create splits, read-size patterns of the source reader (also sources returning their last bytes with io.EOF) and a paced Create on the last write of all histories of depth <= 3; the length/split alphabet also through the gRPC client (depth 1 / 3); 41 unusual valid-UTF-8 keys (separators, control characters, NUL, record prefixes, long keys) in histories with reopenings; a created file kept open across other operations and collection passes (the write takes effect at Close); the same histories to depth 3 / 4 replayed on the real Badger engine.', note=seq_note, ref='C01'),
  'C02': dict(tech='bounded exhaustive enumeration of sequential transaction interleavings on the real stack against the isolation reference model',
    text='All sequential interleavings to the stated depth of autocommit writes, Begin at the four levels, writes, Commit, Rollback in 2-3 transaction slots and GC at any position (one plan with SetReader and Create inside transactions); after every step every open transaction and the autocommit handle read every key and the key list, compared with the model of C02.', note=seq_note, ref='C02'),
  'C03': dict(tech='bounded exhaustive enumeration of commit-centred histories on the real stack against the reference model',
